@@ -16,10 +16,16 @@
 
 package paths
 
-import "strings"
+import (
+	"fmt"
+	"strings"
+)
 
 func (r *relativePathsResolver) absContextPath(value any) (any, error) {
-	v := value.(string)
+	v, ok := value.(string)
+	if !ok {
+		return nil, fmt.Errorf("unexpected type %T for build context", value)
+	}
 	if strings.Contains(v, "://") { // `docker-image://` or any builder specific context type
 		return v, nil
 	}
